@@ -130,7 +130,11 @@ func (g *c07Gen) pattern() jast.Node {
 
 func (g *c07Gen) update() jast.Node {
 	r := g.r
-	switch r.Intn(9) {
+	switch r.Intn(10) {
+	case 9:
+		// a function-valued member must arrive in the result as the function
+		g.tags["update:function-member"] = true
+		return obj("f", &jast.Lambda{Params: []string{"x"}, Body: &jast.Bin{Op: "+", L: &jast.Var{Name: "x"}, R: &jast.Num{V: 1}}}, "k", &jast.Str{V: "new"})
 	case 0:
 		g.tags["update:non-object"] = true
 		return []jast.Node{&jast.Num{V: 1}, &jast.Str{V: "s"}, lit(A{1.0}), &jast.Bool{V: true}}[r.Intn(4)]
@@ -223,6 +227,12 @@ func (g *c07Gen) transformProgram() jast.Node {
 	}
 	// report the transform result together with what the original looks like afterwards
 	res := &jast.Array{Items: []jast.Node{&jast.Array{Items: []jast.Node{e}}, &jast.Array{Items: []jast.Node{&jast.Var{Name: "$"}}}}}
+	if g.tags["update:function-member"] {
+		// ... and call the inserted function on every object of the result
+		res.Items = append(res.Items, &jast.Array{Items: []jast.Node{&jast.Path{Steps: []jast.Node{&jast.Block{Exprs: []jast.Node{e}},
+			&jast.Pred{X: &jast.Desc{}, Filters: []jast.Node{call("exists", &jast.Name{V: "f"})}},
+			&jast.Call{Fn: &jast.Name{V: "f"}, Args: []jast.Node{&jast.Num{V: 2}}}}}}})
+	}
 	return &jast.Block{Exprs: []jast.Node{&jast.Assign{Name: "v", Val: &jast.Name{V: r.Pick("a", "arr", "c")}}, res}}
 }
 
